@@ -31,6 +31,7 @@ type serverCfg struct {
 	Metrics bool   // enable_endpoint_metrics
 	Idle    bool   // idle_timeout set (one more wrapper / interceptor in the chains)
 	Round   int    // payload variation round (thorough)
+	Life    bool   // credential-lifecycle session: private htpasswd file rewritten while the server runs
 }
 
 func onoff(b bool) string {
@@ -51,6 +52,9 @@ func (c serverCfg) String() string {
 	s := fmt.Sprintf("%s/reads-%s/metrics-%s", c.authName(), onoff(c.Reads), onoff(c.Metrics))
 	if c.Idle {
 		s += "/idle"
+	}
+	if c.Life {
+		s += "/lifecycle"
 	}
 	return s
 }
@@ -112,6 +116,19 @@ func configs(r *lib.Run) []serverCfg {
 				serverCfg{Auth: "mtls", TLS: true, Reads: false, Metrics: true, Idle: true, Round: round},
 				serverCfg{Auth: "mtls", TLS: true, Reads: false, Metrics: false, Idle: true, Round: round})
 		}
+		// Credential lifecycle (lifecycle.go): the htpasswd file changes while the
+		// server runs. Both HTTP wrappers (everything authenticated / only writes
+		// authenticated) in quick; the remaining option values in thorough.
+		out = append(out,
+			serverCfg{Auth: "htpasswd", Reads: false, Metrics: false, Life: true, Round: round},
+			serverCfg{Auth: "htpasswd", Reads: true, Metrics: true, Life: true, Round: round})
+		if !r.Quick {
+			out = append(out,
+				serverCfg{Auth: "htpasswd", Reads: false, Metrics: true, Idle: true, Life: true, Round: round},
+				serverCfg{Auth: "htpasswd", Reads: true, Metrics: false, Idle: true, Life: true, Round: round},
+				serverCfg{Auth: "htpasswd", TLS: true, Reads: false, Metrics: true, Life: true, Round: round},
+				serverCfg{Auth: "htpasswd", TLS: true, Reads: true, Metrics: false, Life: true, Round: round})
+		}
 	}
 	return out
 }
@@ -119,7 +136,8 @@ func configs(r *lib.Run) []serverCfg {
 func run(r *lib.Run) {
 	r.SetRule("distinct = (server configuration {auth, tls, allow_unauthenticated_reads, endpoint metrics, idle wrapper}, " +
 		"protocol, HTTP method x path class x key state | gRPC full method x request kind {empty,real}, credential state, " +
-		"phase {before, with, after a valid login}); non-trivial = the request reached the real server binary " +
+		"phase {before, with, after a valid login; credential lifecycle: htpasswd generation 0, login sequences on one / on fresh connections, " +
+		"after the first and after the second change of the htpasswd file}); non-trivial = the request reached the real server binary " +
 		"(an answer or a TLS-level refusal was observed) and, for write attempts, the post-state lookup ran")
 	r.SetExhaustive(true)
 	r.Assume("LDAP authentication is not exercised (no LDAP server in the sandbox); its wrappers share the selection code with htpasswd")
@@ -179,11 +197,33 @@ func run(r *lib.Run) {
 		mats[cfg.Round] = m
 	}
 	r.CountN("configs", int64(len(cfgs)))
+	lifeWanted := 0
+	for _, cfg := range cfgs {
+		if cfg.Life {
+			lifeWanted++
+		}
+	}
+	r.CountN("life.sessions.planned", int64(lifeWanted))
 	sem := make(chan struct{}, 5)
 	var wg sync.WaitGroup
 	var mu sync.Mutex
 	perCfg := map[string]int{}
-	for i, cfg := range cfgs {
+	// The longest sessions (htpasswd: most credential states) are started first;
+	// the index (part of the random stream name) stays the position in cfgs.
+	var order []int
+	for _, pass := range []func(serverCfg) bool{
+		func(c serverCfg) bool { return c.Life },
+		func(c serverCfg) bool { return !c.Life && c.Auth == "htpasswd" },
+		func(c serverCfg) bool { return !c.Life && c.Auth != "htpasswd" },
+	} {
+		for i, cfg := range cfgs {
+			if pass(cfg) {
+				order = append(order, i)
+			}
+		}
+	}
+	for _, i := range order {
+		cfg := cfgs[i]
 		wg.Add(1)
 		sem <- struct{}{}
 		go func(i int, cfg serverCfg) {
@@ -191,6 +231,15 @@ func run(r *lib.Run) {
 			defer func() { <-sem }()
 			s := &session{r: r, cfg: cfg, mat: mats[cfg.Round], universe: universe, idx: i,
 				rng: r.Rng(fmt.Sprintf("cfg-%d-%s", i, cfg)), refusedBefore: map[string]bool{}}
+			if cfg.Life {
+				// Its own htpasswd file: the sessions of one round share the rest.
+				life, err := newLifecycle(s.rng, mats[cfg.Round], filepath.Join(matDir, fmt.Sprintf("life-%d", i)))
+				if err != nil {
+					r.Inconclusive(fmt.Sprintf("credential-lifecycle slice %s could not be set up: %v", cfg, err))
+					return
+				}
+				s.life, s.mat = life, life.mat
+			}
 			s.run()
 			mu.Lock()
 			perCfg[fmt.Sprintf("%s#%d", cfg, cfg.Round)] = s.probes
@@ -198,6 +247,9 @@ func run(r *lib.Run) {
 		}(i, cfg)
 	}
 	wg.Wait()
+	if done := r.Counter("life.sessions.completed"); done != int64(lifeWanted) {
+		r.Inconclusive(fmt.Sprintf("credential-lifecycle slice: %d of %d sessions ran to the end", done, lifeWanted))
+	}
 	keys := make([]string, 0, len(perCfg))
 	for k := range perCfg {
 		keys = append(keys, k)
